@@ -15,7 +15,10 @@ vars == <<heap, alias, bufs, view, stale, last, anc, mayst, hist>>
 
 Base1 == <<"i8", <<<<10, 11>>, <<>>, <<12, 13, 14>>>>>>
 Base2 == <<"i8", <<<<>>, <<20>>, <<21, 22>>, <<>>>>>>
-Bases == {Base1, Base2}
+Base3 == <<"i8", <<<<30, 31>>, <<32>>>>>>                      \* no empty row: the library's shortcuts for such shapes
+Bases == {Base1, Base2, Base3}
+\* a float column vector fitting handle h, with an infinity in its first entry
+ColFor(h) == <<"col", "f8", [i \in 1..Len(heap[h][2]) |-> IF i = 1 THEN <<1, 0>> ELSE <<i, 1>>]>>
 
 \* ---- alphabets (selected per configuration through the constants)
 Sels == [
@@ -37,10 +40,12 @@ Asgs == [
              <<<<"slice", NONE, NONE, NONE>>, <<"slice", NONE, 1, NONE>>, <<"scalar", 96>>>>}]
 Funs == [
   full |-> {<<"ufunc", "add", <<"py", "pyint", 1>>>>, <<"ufunc", "self", 0>>, <<"func", "cumsum", 0>>, <<"func", "sort", 0>>,
-            <<"func", "diff", 1>>, <<"func", "concat", 0>>, <<"func", "concat", -1>>, <<"func", "astype", 0>>, <<"func", "unique_obs", 0>>},
-  small |-> {<<"ufunc", "add", <<"py", "pyint", 1>>>>, <<"func", "cumsum", 0>>, <<"func", "concat", 0>>}]
+            <<"func", "diff", 1>>, <<"func", "concat", 0>>, <<"func", "concat", -1>>, <<"func", "astype", 0>>, <<"func", "unique_obs", 0>>, <<"func", "nonzero_obs", 0>>, <<"ufunc", "addcol", 0>>},
+  small |-> {<<"ufunc", "add", <<"py", "pyint", 1>>>>, <<"func", "cumsum", 0>>, <<"func", "concat", 0>>, <<"ufunc", "addcol", 0>>}]
 Reads == [full |-> {"repr", "str", "tolist", "sum", "len", "unique", "cumsum", "pad", "colbroadcast", "getrow", "rowmean", "size"}, small |-> {"repr", "len"}]
 
+\* values are written in the target's own element type
+ValFor(h, v) == IF IsFlt(heap[h][1]) THEN <<v, 1>> ELSE v
 Rec(st) == hist' = Append(hist, st)
 Init == HeapInit /\ hist = <<>>
 NextStep ==
@@ -50,11 +55,12 @@ NextStep ==
      /\ \E h \in Handles :
         \/ /\ Len(heap) < MaxH
            /\ \E s \in Sels[SelSet] : LET st == <<"select", h, s[1], s[2]>> IN Step(st) /\ Rec(st)
-        \/ \E a \in Asgs[AsgSet] : LET st == <<"assign", h, a[1], a[2], a[3]>> IN Step(st) /\ Rec(st)
-        \/ AsgSet = "full" /\ LET st == <<"fill", h, 93>> IN Step(st) /\ Rec(st)
+        \/ \E a \in Asgs[AsgSet] : LET st == <<"assign", h, a[1], a[2], <<"scalar", ValFor(h, a[3][2])>>>> IN Step(st) /\ Rec(st)
+        \/ AsgSet = "full" /\ LET st == <<"fill", h, ValFor(h, 93)>> IN Step(st) /\ Rec(st)
         \/ /\ Len(heap) < MaxH
            /\ \E f \in Funs[FunSet] :
                 LET st == CASE f[1] = "ufunc" /\ f[2] = "self" -> <<"ufunc", "add", <<"h", h>>, <<"h", h>>>>
+                            [] f[1] = "ufunc" /\ f[2] = "addcol" -> <<"ufunc", "add", <<"h", h>>, ColFor(h)>>
                             [] f[1] = "ufunc" -> <<"ufunc", f[2], <<"h", h>>, f[3]>>
                             [] f[2] = "concat" -> <<"func", "concat", h, <<1, f[3]>>>>
                             [] OTHER -> <<"func", f[2], h, f[3]>>
